@@ -80,9 +80,6 @@ func pruneAryNulls(ary *partialArray) *partialArray {
 	newAry := []*lazyNode{}
 
 	for _, v := range *ary {
-		if v != nil {
-			pruneNulls(v)
-		}
 		newAry = append(newAry, v)
 	}
 
